@@ -35,7 +35,8 @@ prefix bounds (start_at / stop_at): a node class name, "text:<prefix>", or "assi
 
 Before selection / translation the function is PREPARED (see design/PYTRANS.md, "Robustness against
 behaviour-preserving refactorings"): same-module / same-class helpers are inlined, module / class constants
-are resolved, guard clauses, loop/comprehension shapes and test polarity are brought to normal forms.  The
+are resolved, guard clauses, loop/comprehension shapes and test polarity are brought to normal forms, and
+single-assignment locals bound outside an addressed fragment are replaced by their definitions.  The
 prepared AST is also what the live side of the differential validation runs.
 """
 import ast
@@ -221,6 +222,8 @@ class Tr:
         self.inlined = set(getattr(fn, "_inlined", ()))   # helpers inlined (AST level, and while translating)
         self.const_stack = []
         self.inline_stack = []
+        self.substituted = set()   # single-assignment locals replaced by their (untranslatable) definition
+        self._single = {}
         self.inputs = []           # (dump key, coq name, type, set of python names mentioned, text)
         for text, cname, ty in spec["inputs"]:
             if ty not in ("nat", "N", "bool", "bytes"):
@@ -324,6 +327,14 @@ class Tr:
         if v is not None:
             return v
         _bad(e, "name is neither an input, an assigned local nor a module constant")
+
+    def single_defs(self):
+        f = self.inline_stack[-1] if self.inline_stack else self.fn
+        if f is None:
+            return {}
+        if id(f) not in self._single:
+            self._single[id(f)] = single_assigned(f, {t for _k, _c, _ty, _n, t in self.inputs if t.isidentifier()})
+        return self._single[id(f)]
 
     # -- constants --------------------------------------------------------------
     @staticmethod
@@ -743,11 +754,27 @@ class Tr:
         hl = fn_locals(helper)
         env2 = {"\0dead": set(env.get("\0dead", ()))}
         conds = []
+        ast_sub = {}
         for p in params:
-            v = self.expr(m[p], env)
+            try:
+                v = self.expr(m[p], env)
+            except Unsupported:
+                ast_sub[p] = m[p]      # not a value by itself (e.g. an object): its uses may be inputs
+                continue
             conds += v.conds
             env2[p] = (v.text if v.text is None or v.text.startswith("(") or re.match(r"^[A-Za-z0-9_.%']+$", v.text) else "(%s)" % v.text, v.ty)
-        env2 = self.kill(env2, hl)
+        if ast_sub:
+            if _stores(ast.Module(body=hp.body, type_ignores=[])) & set(ast_sub):
+                _bad(e, "helper %s re-binds a parameter whose argument is not a value" % helper.name)
+            # names of the caller inside the substituted arguments must keep their meaning in the helper
+            if any(isinstance(x, ast.Name) and x.id in hl for a in ast_sub.values() for x in ast.walk(a)):
+                _bad(e, "argument of helper %s mentions a name that is local to the helper" % helper.name)
+            hp.body = [_Subst(ast_sub).visit(x) for x in hp.body]
+            ast.fix_missing_locations(hp)
+            for k2, v2 in env.items():          # the caller's locals the arguments mention stay visible
+                if k2 != "\0dead" and any(isinstance(x, ast.Name) and x.id == k2 for a in ast_sub.values() for x in ast.walk(a)):
+                    env2.setdefault(k2, v2)
+        env2 = self.kill(env2, hl - set(ast_sub))
         def final(_env):
             _bad(e, "helper %s: a path reaches its end without `return`" % helper.name)
         self.inline_stack.append(helper)
@@ -832,7 +859,19 @@ class Tr:
                 val = ast.BinOp(left=ast.Name(id=name, ctx=ast.Load()), op=s.op, right=s.value)
                 ast.copy_location(val, s)
                 ast.fix_missing_locations(val)
-            v = self.settle(self.expr(val, env), s)
+            try:
+                v = self.settle(self.expr(val, env), s)
+            except Unsupported:
+                # e.g. `header = packet[ZigbeeSecurityHeader]`: not a value of the grammar by itself, but its
+                # uses (`header.fc`, `raw(header)`) may be inputs once the definition is substituted
+                defs = self.single_defs()
+                if not (isinstance(s, ast.Assign) and name in defs) or not rest:
+                    raise
+                self.substituted.add(name)
+                rest2 = [subst_locals(copy.deepcopy(x), {name: s.value}) for x in rest]
+                for x in rest2:
+                    ast.fix_missing_locations(x)
+                return self.block(rest2, env, final)
             env2, cname = self.assign(env, name, v.ty, s)
             d, t, p = self.block(rest, env2, final)
             pre = conj(v.conds + (["(let %s := %s in %s)" % (cname, v.text, p)] if p != "True" else []))
@@ -1127,6 +1166,121 @@ def _body_wo_doc(fn):
     return b
 
 
+def ret_expr(stmts):
+    """The value a (normalised) statement list returns, as ONE expression: `return e` is e, an if/else whose
+    branches both return is a conditional expression; None for any other shape."""
+    if len(stmts) != 1:
+        return None
+    s = stmts[0]
+    if isinstance(s, ast.Return) and s.value is not None:
+        return s.value
+    if isinstance(s, ast.If) and s.orelse:
+        a, b = ret_expr(s.body), ret_expr(s.orelse)
+        if a is not None and b is not None:
+            return ast.copy_location(ast.IfExp(test=s.test, body=a, orelse=b), s)
+    return None
+
+
+def single_assigned(fn, keep=()):
+    """Locals of `fn` that can be replaced by their definition wherever they are read:
+    bound exactly once in the function, by a plain `x = <expr>` that is not inside a loop and whose
+    statement list dominates every read; the definition reads no name that is (re)bound elsewhere in the
+    function (other such locals excepted) and no attribute / item that the function stores to.
+    -> {name: rhs AST}"""
+    a = fn.args
+    params = {x.arg for x in a.args + a.posonlyargs + a.kwonlyargs} | ({a.vararg.arg} if a.vararg else set()) | ({a.kwarg.arg} if a.kwarg else set())
+    parents, order = {}, {}
+    for i, n in enumerate(_dfs(fn)):
+        order[id(n)] = i
+        for c in ast.iter_child_nodes(n):
+            parents[id(c)] = n
+    stores, loads = {}, {}
+    for n in _dfs(fn):
+        if isinstance(n, ast.Name):
+            (loads if isinstance(n.ctx, ast.Load) else stores).setdefault(n.id, []).append(n)
+        elif isinstance(n, (ast.FunctionDef, ast.ClassDef)) and n is not fn:
+            stores.setdefault(n.name, []).append(n)
+        elif isinstance(n, ast.ExceptHandler) and n.name:
+            stores.setdefault(n.name, []).append(n)
+        elif isinstance(n, (ast.Import, ast.ImportFrom)):
+            for al in n.names:
+                stores.setdefault((al.asname or al.name).split(".")[0], []).append(n)
+    stored_paths = [_unp(n) for n in _dfs(fn) if isinstance(n, (ast.Attribute, ast.Subscript)) and isinstance(n.ctx, (ast.Store, ast.Del))]
+    cand = {}
+    for name, ss in stores.items():
+        if len(ss) != 1 or name in params or name in keep or not isinstance(ss[0], ast.Name):
+            continue
+        st = parents.get(id(ss[0]))
+        if not (isinstance(st, ast.Assign) and len(st.targets) == 1 and st.targets[0] is ss[0]):
+            continue
+        # not inside a loop / nested function; find the statement list holding the assignment
+        p, inloop = st, False
+        while id(p) in parents:
+            p = parents[id(p)]
+            if isinstance(p, (ast.For, ast.While, ast.AsyncFor, ast.FunctionDef, ast.Lambda, ast.ListComp)) and p is not fn:
+                inloop = True
+        if inloop:
+            continue
+        holder = parents[id(st)]
+        lst = next((getattr(holder, f) for f in ("body", "orelse", "finalbody") if isinstance(getattr(holder, f, None), list) and st in getattr(holder, f)), None)
+        if lst is None:
+            continue
+        idx = lst.index(st)
+        ok = True
+        for u in loads.get(name, []):
+            q = u
+            while id(q) in parents and not (q in lst):
+                q = parents[id(q)]
+            if q not in lst or lst.index(q) <= idx:
+                ok = False
+                break
+        if not ok:
+            continue
+        rhs = st.value
+        if any(isinstance(x, (ast.Yield, ast.YieldFrom, ast.Await, ast.NamedExpr, ast.Lambda)) for x in ast.walk(rhs)):
+            continue
+        paths = [_unp(x) for x in ast.walk(rhs) if isinstance(x, (ast.Attribute, ast.Subscript))]
+        if any(pp == sp or pp.startswith(sp + ".") or pp.startswith(sp + "[") or sp.startswith(pp + ".") or sp.startswith(pp + "[")
+               for pp in paths for sp in stored_paths):
+            continue
+        cand[name] = rhs
+    # the definition may only read stable names
+    changed = True
+    while changed:
+        changed = False
+        for name, rhs in list(cand.items()):
+            for x in ast.walk(rhs):
+                if isinstance(x, ast.Name) and isinstance(x.ctx, ast.Load) and x.id != name:
+                    if x.id in stores and x.id not in cand:
+                        del cand[name]
+                        changed = True
+                        break
+                elif isinstance(x, ast.Name) and x.id == name:
+                    del cand[name]
+                    changed = True
+                    break
+    return cand
+
+
+def subst_locals(node, defs, depth=0):
+    """Replace reads of single-assignment locals by their definitions (transitively)."""
+    if not defs or depth > 8:
+        return node
+    class S(ast.NodeTransformer):
+        def __init__(self):
+            self.hit = False
+        def visit_Name(self, n):
+            if isinstance(n.ctx, ast.Load) and n.id in defs:
+                self.hit = True
+                return copy.deepcopy(defs[n.id])
+            return n
+    t = S()
+    node = t.visit(node)
+    if t.hit:
+        node = subst_locals(node, defs, depth + 1)
+    return node
+
+
 class Inliner(ast.NodeTransformer):
     """AST-level inlining of same-module / same-class helpers:
        * a call whose helper is `return <expr>` (after its docstring) becomes that expression with the
@@ -1169,9 +1323,10 @@ class Inliner(ast.NodeTransformer):
         if h is None:
             return node
         helper, params, m, body = h
-        if len(body) == 1 and isinstance(body[0], ast.Return) and body[0].value is not None:
+        e = ret_expr(normalize_block(copy.deepcopy(body)))
+        if e is not None:
             self.done.add(helper.name)
-            return _Subst(m).visit(body[0].value)
+            return _Subst(m).visit(e)
         return node
 
     def visit_Expr(self, node):
@@ -1597,13 +1752,24 @@ def locate(path, qualname, spec):
     mode = spec.get("mode", "function")
     if mode == "function":
         return mode, fn, fn.body, (fn0.lineno, fn0.end_lineno), src
+    plain = {t for t, _c, _ty in spec["inputs"] if t.isidentifier()}      # declared inputs are never replaced
     if mode == "prefix":
         stmts, stop = prefix_stmts(fn, spec)
         first = stmts[0].lineno if (spec.get("start_at") and stmts) else fn0.lineno
+        # locals bound (once) BEFORE the translated statements are replaced by their definitions
+        inside = _stores(ast.Module(body=stmts, type_ignores=[]))
+        defs = {k: v for k, v in single_assigned(fn, plain).items() if k not in inside}
+        stmts = [subst_locals(x, defs) for x in stmts]
+        for x in stmts:
+            ast.fix_missing_locations(x)
         return mode, fn, stmts, (first, max(first, stop.lineno - 1)), src
     if mode == "expr":
         e, where = select_expr(fn, spec["select"], fn._callees)
-        return mode, fn, e, (where.lineno, getattr(where, "end_lineno", None) or where.lineno), src
+        home = next((f for f in [fn] + list(fn._callees) if any(n is where for n in _dfs(f))), fn)
+        l0, l1 = where.lineno, getattr(where, "end_lineno", None) or where.lineno
+        e = subst_locals(copy.deepcopy(e), single_assigned(home, plain))
+        ast.fix_missing_locations(e)
+        return mode, fn, e, (l0, l1), src
     raise Unsupported("unknown mode %r" % mode)
 
 
@@ -1667,7 +1833,8 @@ def translate_info(path, qualname, spec, relpath=None):
             + "Definition %s_pre %s : Prop :=\n%s.\n" % (name, params, _ind(pre)))
     info = {"name": name, "qualname": qualname, "file": rel, "lines": [l0, l1], "sha256": sha, "mode": mode,
             "params": [[c, t] for _k, c, t, _n, _x in tr.inputs], "ret": rty,
-            "constants": dict(tr.consts_used), "inlined": sorted(tr.inlined), "bindings": dict(fn._bindings)}
+            "constants": dict(tr.consts_used), "inlined": sorted(tr.inlined), "bindings": dict(fn._bindings),
+            "substituted_locals": sorted(tr.substituted)}
     return text, info
 
 
